@@ -12,8 +12,11 @@ Emit_UnitsKernels.tla (grid enumeration), Trace_UnitsKernels.tla (judge of recor
    numbers gives the unit-independent physical value (UnitEquivariance, exact in the exponent
    algebra); the output unit depends on the donor operand only (OutUnitRule / OutUnitStep); the
    precision rule is total and depends on the data operands only (DTypeRule / DTypeStep).
+   A second, smaller model adds the shape of the data operands (array / 0-d variable) to the state:
+   neither output unit nor precision class may change when an operand is reshaped (ShapeStep).
    Negative controls: Q documented in the wavelength unit; time unit entering the energy constant
-   with exponent 1; "single as soon as any operand is single".
+   with exponent 1; "single as soon as any operand is single"; "a 0-d operand is a parameter and does
+   not count for the precision class".
 2. spec -> code (M1): TLC writes the unit grid (with the expected output unit and its scale vector)
    and the dtype grid (with the expected precision class) of every kernel; the driver replays the
    product (thorough: complete; quick: a sample that contains every unit row and every dtype row of
@@ -31,6 +34,14 @@ property family — times the condition number of the result for the two inelast
 two energies, one of them ~ (t - t0)^-2; same bound as derived in c05.py; scenarios keep it below ~50).  This is the metamorphic relation the property states; absolute correctness of the
 values is C01 / C04 / C05.
 
+Hardening round: every row is handed over in one of five shapes - all operands 1-d; only the data
+operands 1-d and the others 0-d; only the first operand 1-d (the supplied energy of the inelastic
+kernels then is a 0-d parameter); everything 0-d; the first operand as event data (binned) - because
+neither the output unit nor the precision class nor the value may depend on it; the reference run of a
+row uses the same shape.  keV joins the energy units, Q_elements_from_wavelength the kernel table.  A
+failing reference run (all-SI, all-double) is a violation of that row, not a machinery failure.  At the
+end a sample of the rows of *every* dtype class is replayed once more in another order.
+
 Interpretation (weakest reading, see final report): data operands are the converted coordinate of the
 tof kernels (repository docstrings / tests), tof AND the supplied energy for the inelastic kernels,
 the wavelength for the gravity kernels; the chopper-cascade helpers and two_theta always compute in
@@ -41,6 +52,7 @@ from __future__ import annotations
 
 import json
 import math
+import os
 from fractions import Fraction
 
 import mpmath
@@ -57,6 +69,11 @@ INT_LIMIT = {'int64': 2 * 10 ** 9, 'int32': 30000}     # squares stay representa
 E_MANT = 1602176634
 CANON = {'time': 's', 'length': 'm', 'energy': 'J', 'angle': 'rad', 'accel': 'm/s^2', 'invlength': '1/m'}
 VECTOR_ARGS = ('incident_beam', 'scattered_beam', 'gravity')
+# event data reaches the coordinate kernels of conversion.tof through convert(); the geometry / cascade helpers
+# and the private gravity helper are not handed event data here
+PRIVATE_OR_GEOMETRY = ('drop_due_to_gravity', 'scattering_angles_with_gravity', 'scattering_angle_in_yz_plane',
+                       'two_theta', 'propagate_times', 'wavelength_to_inverse_velocity',
+                       'Q_elements_from_wavelength')
 ARG_FAM = {'tof': 'time', 'time': 'time', 'Ltotal': 'length', 'L1': 'length', 'L2': 'length',
            'distance': 'length', 'wavelength': 'length', 'incident_beam': 'length',
            'scattered_beam': 'length', 'energy': 'energy', 'incident_energy': 'energy',
@@ -94,6 +111,8 @@ def real_kernel(k):
         return CC.propagate_times, ('value',)
     if k == 'wavelength_to_inverse_velocity':
         return CC.wavelength_to_inverse_velocity, ('value',)
+    if k == 'Q_elements_from_wavelength':
+        return K.Q_elements_from_wavelength, ('Qx', 'Qy', 'Qz')
     return getattr(K, k), ('value',)
 
 
@@ -133,19 +152,44 @@ class Skip(Exception):
     pass
 
 
-def build(k, args, U, D, tilted):
-    """Operands of one row (2-element arrays) and the same physical scenario in SI / float64."""
+SHAPES = ('1d', 'aux0d', 'first1d', 'all0d', 'events')
+
+
+def one_d_operands(shape, args, first, data):
+    """The operands handed over as 1-d arrays over 'x' (the others are 0-d and hold the first numeric point).
+    For the geometry kernels the operand that carries the pixels is `scattered_beam` (they update it in place
+    and document no broadcasting of an incident beam that has a dim the scattered beam lacks; shapes are not
+    part of the property's grid, so only the usual arrangement is used)."""
+    carrier = 'scattered_beam' if 'scattered_beam' in args else first
+    if shape in ('1d', 'events'):
+        return set(args)
+    if shape == 'aux0d':
+        return set(data) | {carrier}
+    if shape == 'first1d':
+        return {carrier}
+    return set()
+
+
+def build(k, args, U, D, tilted, shape='1d', first=None, data=()):
+    """Operands of one row (2-element arrays / 0-d / events, see SHAPES) and the same physical scenario in
+    SI / float64 in the same shape."""
     ops, ref = {}, {}
     phys = {}
     cond = [1.0, 1.0]   # condition number of the result w.r.t. relative perturbations of the operands
+    oned = one_d_operands(shape, args, first, data)
     for a in args:
+        pts = (0, 1) if a in oned else (0, 0)
         if a in VECTOR_ARGS:
-            comps, sis = zip(*(vector_operand(a, U[a], p, tilted) for p in range(2)))
-            ops[a] = sc.vectors(dims=['x'], values=np.array(comps), unit=lc.scu(U[a]))
-            ref[a] = sc.vectors(dims=['x'], values=np.array(sis), unit=lc.scu(CANON[ARG_FAM[a]]))
+            comps, sis = zip(*(vector_operand(a, U[a], p, tilted) for p in pts))
+            if a in oned:
+                ops[a] = sc.vectors(dims=['x'], values=np.array(comps), unit=lc.scu(U[a]))
+                ref[a] = sc.vectors(dims=['x'], values=np.array(sis), unit=lc.scu(CANON[ARG_FAM[a]]))
+            else:
+                ops[a] = sc.vector(value=np.array(comps[0]), unit=lc.scu(U[a]))
+                ref[a] = sc.vector(value=np.array(sis[0]), unit=lc.scu(CANON[ARG_FAM[a]]))
             phys[a] = sis
             continue
-        vals, ph = zip(*(numeric(TARGETS[p][a], U[a], D[a]) for p in range(2)))
+        vals, ph = zip(*(numeric(TARGETS[p][a], U[a], D[a]) for p in pts))
         phys[a] = list(ph)
         ops[a] = [vals, U[a], D[a]]
     # inelastic kernels: stay clear of the NaN boundary and of cancellation (scenario validity)
@@ -181,9 +225,22 @@ def build(k, args, U, D, tilted):
         if a in VECTOR_ARGS:
             continue
         vals, u, d = ops[a]
-        ops[a] = lc.var(np.array(vals), ['x'], u, d)
         cu = CANON[ARG_FAM[a]]
-        ref[a] = lc.var(np.array([float(p / mpf(lc.si(cu))) for p in phys[a]]), ['x'], cu, 'float64')
+        rvals = [float(p / mpf(lc.si(cu))) for p in phys[a]]
+        if a not in oned:
+            ops[a] = lc.var(np.array(vals[0]), [], u, d)
+            ref[a] = lc.var(np.array(rvals[0]), [], cu, 'float64')
+        elif shape == 'events' and a == first:
+            # two bins over 'x', bin i holds the i-th numeric point twice, one stray event between the bins
+            ops[a] = lc.binned_var(np.array([[v, v] for v in vals]), u, d, gaps=[0, 1, 0], dim='x')
+            ref[a] = lc.binned_var(np.array([[v, v] for v in rvals]), cu, 'float64', gaps=[0, 1, 0], dim='x')
+        else:
+            ops[a] = lc.var(np.array(vals), ['x'], u, d)
+            ref[a] = lc.var(np.array(rvals), ['x'], cu, 'float64')
+    if not oned:
+        cond = cond[:1]
+    elif shape == 'events':
+        cond = [cond[0], cond[0], cond[1], cond[1]]
     return ops, ref, cond
 
 
@@ -194,9 +251,15 @@ def call(f, parts, ops):
         return 'unsupported', repr(e)[:160]
     except Exception as e:  # noqa: BLE001
         return 'raised', repr(e)[:300]
-    if isinstance(r, dict):
-        return 'ok', {p: r[p] for p in parts}
-    return 'ok', {'value': r}
+    try:
+        out = {p: r[p] for p in parts} if isinstance(r, dict) else {'value': r}
+        for p, v in out.items():
+            if not isinstance(v, sc.Variable):
+                return 'malformed', f'result {p} is a {type(v).__name__}, not a Variable'
+            lc.elem_unit_name(v), lc.elem_dtype_name(v), lc.flat_values(v)
+    except Exception as e:  # noqa: BLE001
+        return 'malformed', f'malformed result: {e!r}'[:300]
+    return 'ok', out
 
 
 def scale_fraction(os_):
@@ -234,37 +297,59 @@ def select_rows(ctx, urows, drows):
     """Rows (kernel, unit row, dtype row) in replay order.
 
     The order matters for one class of defects only: state kept between calls (a converted constant
-    cached per unit with the precision of its first caller, ...).  Therefore the dtype rows are walked
-    in a different rotation for every unit row (so single precision comes first for many units), and
-    at the end a sample of the all-double rows is replayed once more, with the whole grid as history.
+    cached per unit with the precision of its first caller, ...).  Therefore the first use of every unit
+    row is the all-single dtype row, directly followed by the all-double one, the other dtype rows are walked
+    in a different rotation for every unit row, and
+    at the end (after the marker row 'again') a sample of the all-double rows and a sample of the rows of
+    every other dtype class are replayed once more, in another order, with the whole grid as history.
     """
     rng = ctx.rng
-    done64 = []
+    done64, done_other = [], []
 
     def emit(k, u, d):
         if all(v == 'float64' for v in d['D'].values()):
             done64.append((k, u, d))
+        elif len(done_other) < 20000 or rng.random() < 0.2:
+            done_other.append((k, u, d))
         return k, u, d
+
+    def is_all(d, dt):
+        return all(v == dt for a, v in d['D'].items() if a not in VECTOR_ARGS)
 
     for k in sorted(urows):
         us, ds = urows[k], drows[k]
+        j32 = next((j for j, d in enumerate(ds) if is_all(d, 'float32')), None)
+        j64 = next((j for j, d in enumerate(ds) if is_all(d, 'float64')), None)
+        if j32 is None or j64 is None:
+            raise MachineryError(f'{k}: dtype grid without an all-single / all-double row')
         if ctx.thorough or len(us) * len(ds) <= 400:
             for i, u in enumerate(us):
-                r = i % len(ds)
-                for d in ds[r:] + ds[:r]:
+                # hostile order: the first use of every unit combination is single precision, the all-double
+                # row follows at once (a constant remembered with its first caller's precision shows there),
+                # the remaining dtype rows in a rotation that differs from unit row to unit row
+                rest = [d for j, d in enumerate(ds) if j not in (j32, j64)]
+                r = i % max(1, len(rest))
+                for d in [ds[j32], ds[j64]] + rest[r:] + rest[:r]:
                     yield emit(k, u, d)
             continue
         seen = set()
-        pairs = [(i, rng.randrange(len(ds))) for i in range(len(us))]
+        pairs = []
+        for i in range(len(us)):
+            pairs += [(i, j32), (i, j64)]
+        pairs += [(i, rng.randrange(len(ds))) for i in range(len(us))]
         pairs += [(rng.randrange(len(us)), j) for j in range(len(ds))]
         pairs += [(rng.randrange(len(us)), rng.randrange(len(ds))) for _ in range(250)]
         for i, j in pairs:
             if (i, j) not in seen:
                 seen.add((i, j))
                 yield emit(k, us[i], ds[j])
+    yield 'again', None, None
     again = list(done64)
     rng.shuffle(again)
     yield from again[:3000 if ctx.thorough else 400]
+    # ... and rows of every other dtype class, now with the double-precision rows as their history
+    rng.shuffle(done_other)
+    yield from done_other[:2000 if ctx.thorough else 250]
 
 
 def run(ctx):
@@ -278,9 +363,12 @@ def run(ctx):
     ctx.assume('tolerance of "no more than rounding": 1e-11 relative, 1e-5 as soon as an operand is float32')
     # ---- 1. design
     cfg = 'MC_UnitsKernels_thorough.cfg' if ctx.thorough else 'MC_UnitsKernels.cfg'
-    res = ctx.tlc('conv/MC_UnitsKernels.tla', cfg, workers=16, timeout=1500)
+    res = ctx.tlc('conv/MC_UnitsKernels.tla', cfg, workers=int(os.environ.get('VERIF_TLC_WORKERS', 16)), timeout=1500)
     require_ok(ctx, res, 'UnitsKernels model')
-    for b in ('qunit', 'recipe', 'dtype_any'):
+    # shapes of the data operands (array / 0-d) as a further dimension of the state machine, on a reduced unit grid
+    res = ctx.tlc('conv/MC_UnitsKernels.tla', 'MC_UnitsKernels_shapes.cfg', workers=4, timeout=600)
+    require_ok(ctx, res, 'UnitsKernels model with shapes')
+    for b in ('qunit', 'recipe', 'dtype_any', 'scalar_param'):
         ctx.tlc('conv/MC_UnitsKernels.tla', f'Neg_UnitsKernels_{b}.cfg', workers=4, expect_error=True, timeout=300)
     urows, drows = load_grid(ctx)
     ctx.extra['unit_rows'] = sum(len(v) for v in urows.values())
@@ -296,7 +384,12 @@ def run(ctx):
     worst_by_kernel: dict = {}
     tid = 0
     kernels = {}
+    again = False
+    shapes_used: dict = {}
     for k, ur, dr in select_rows(ctx, urows, drows):
+        if k == 'again':
+            again = True
+            continue
         U, D = ur['U'], dr['D']
         args = list(U)
         if k == 'drop_due_to_gravity' and any(D[a].startswith('int') for a in args):
@@ -305,20 +398,25 @@ def run(ctx):
         if k not in kernels:
             kernels[k] = real_kernel(k)
         f, parts = kernels[k]
+        first = ur['args'][0]
+        shape = ctx.rng.choice(('1d', '1d', 'aux0d', 'first1d', 'all0d', 'events'))
+        if shape == 'events' and not (first in dr['data'] and k not in PRIVATE_OR_GEOMETRY):
+            shape = 'all0d'
         tilted = (tid % 2 == 1) and 'gravity' in args and k != 'scattering_angle_in_yz_plane'
         try:
-            ops, ref, cond = build(k, args, U, D, tilted)
+            ops, ref, cond = build(k, args, U, D, tilted, shape, first, dr['data'])
         except Skip:
             stats['skipped'] += 1
             continue
         status, got = call(f, parts, ops)
         prec = 'float32' if 'float32' in D.values() else 'float64'
-        base = {'ev': 'call', 'tid': tid, 'k': k, 'U': U, 'D': D}
+        base = {'ev': 'call', 'tid': tid, 'k': k, 'U': U, 'D': D, 'shape': shape, 'layout_ok': True,
+                'again': again}
         det = {'expected_out': ur['out'], 'expected_dtype': dr['dt'], 'tilted_gravity': tilted,
-               'data_operands': sorted(dr['data'])}
+               'data_operands': sorted(dr['data']), 'shape': shape}
         tid += 1
         if status != 'ok':
-            stats[status] += 1
+            stats[status] = stats.get(status, 0) + 1
             events.append(dict(base, part='value', status=status, out='', dt='', close=True))
             details.append(dict(det, exc=got))
             if status == 'unsupported' and 'int32' not in D.values():
@@ -328,23 +426,31 @@ def run(ctx):
             continue
         rstatus, rref = call(f, parts, ref)
         if rstatus != 'ok':
-            raise MachineryError(f'{k}: reference call (SI units, float64) failed: {rref}')
+            # the same scenario in coherent SI units and double precision: no refusal is admissible here, and a
+            # failure is the implementation's (the operands are plain float64 variables), not the harness'
+            stats['reference_row_failed'] = stats.get('reference_row_failed', 0) + 1
+            Uref = {a: CANON[ARG_FAM[a]] for a in args}
+            events.append(dict(base, U=Uref, D={a: 'float64' for a in args}, part='value',
+                               status='raised' if rstatus == 'unsupported' else rstatus, out='', dt='', close=True))
+            details.append(dict(det, exc=rref, reference_row=True))
+            ctx.case()
+            continue
         stats['ok'] += 1
+        shapes_used[shape] = shapes_used.get(shape, 0) + 1
         os_frac = mpf(scale_fraction(ur['os']))
         for part in parts:
             g, r0 = got[part], rref[part]
-            out_name = lc.unit_name(g.unit)
-            ref_name = lc.unit_name(r0.unit)
-            if ref_name not in lc.UNITS:
-                raise MachineryError(f'{k}: reference output unit {r0.unit} unknown to the harness')
-            gv = np.asarray(g.values, dtype='float64').ravel()
-            rv = np.asarray(r0.values, dtype='float64').ravel()
-            close = gv.shape == rv.shape
+            out_name = lc.elem_unit_name(g)
+            ref_name = lc.elem_unit_name(r0)
+            gv = np.asarray(lc.flat_values(g), dtype='float64').ravel()
+            rv = np.asarray(lc.flat_values(r0), dtype='float64').ravel()
+            layout_ok = lc.is_binned(g) == (shape == 'events') and lc.is_binned(r0) == (shape == 'events')
+            close = gv.shape == rv.shape and len(gv) == len(cond) and ref_name in lc.UNITS
             rel = 0.0
             if close:
                 for x, y, cn in zip(gv, rv, cond):
-                    want = mpf(float(y)) * mpf(lc.si(ref_name))
-                    have = mpf(float(x)) * os_frac
+                    want = mpf(float(y)) * mpf(lc.si(ref_name)) if math.isfinite(y) else mpf(0)
+                    have = mpf(float(x)) * os_frac if math.isfinite(x) else mpf(0)
                     e = float(abs((have - want) / want)) if math.isfinite(x) and want != 0 else float('inf')
                     rel = max(rel, e / cn)      # relative difference in units of the condition number
                 close = rel <= TOL[prec]
@@ -352,18 +458,21 @@ def run(ctx):
                     worst[prec] = max(worst[prec], rel)
                     wk = worst_by_kernel.setdefault(k, {'float64': 0.0, 'float32': 0.0})
                     wk[prec] = max(wk[prec], rel)
-            events.append(dict(base, part=part, status='ok', out=out_name, dt=lc.dtype_name(g.dtype),
-                               close=bool(close)))
+            events.append(dict(base, part=part, status='ok', out=out_name, dt=lc.elem_dtype_name(g),
+                               close=bool(close), layout_ok=bool(layout_ok)))
             d2 = dict(det, rel_difference=rel, got=[float(v) for v in gv], reference_SI_run=[float(v) for v in rv],
                       reference_unit=ref_name)
             if k.startswith('energy_transfer'):
                 en = 'incident_energy' if k == 'energy_transfer_direct_from_tof' else 'final_energy'
                 d2['const_class'] = lc.const_class(D[en], U[en], U['tof'], (U['L1'], U['L2']))
             details.append(d2)
-        trivial = all(U[a] == CANON[ARG_FAM[a]] and D[a] == 'float64' for a in args)
-        ctx.case(nontrivial_id=None if trivial else (k, tuple(sorted(U.items())), tuple(sorted(D.items()))))
+        trivial = all(U[a] == CANON[ARG_FAM[a]] and D[a] == 'float64' for a in args) and shape == '1d'
+        ctx.case(nontrivial_id=None if trivial or again else (
+            k, tuple(sorted(U.items())), tuple(sorted(D.items())), shape))
         if tid in (5, 3000):
-            ctx.sample({'event': events[-1], 'operands': {a: repr(v.values.tolist()) for a, v in ops.items()}})
+            ctx.sample({'event': events[-1], 'operands': {a: repr(lc.flat_values(v).tolist())
+                                                          for a, v in ops.items()}})
+    ctx.extra['rows_by_shape'] = shapes_used
     ctx.extra['calls'] = stats
     ctx.extra['max_relative_difference_observed'] = worst
     ctx.extra['tolerances'] = TOL
@@ -372,23 +481,42 @@ def run(ctx):
         {'kernel': k, 'int64_operands': list(a), 'rows': n} for (k, a), n in sorted(unsupported_int64_only.items())]
     if not ctx.samples:
         ctx.sample({'event': events[0]})
-    if stats['ok'] < 100:
-        raise MachineryError(f'vacuous run: {stats}')
 
     # ---- 3. TLC judges every event
+    nviol = 0
+    found = []
     for line, _tid, clause in lc.run_trace(ctx, 'conv/Trace_UnitsKernels.tla', events, 'Trace_UnitsKernels'):
         ev, det = events[line - 1], details[line - 1]
         D = ev['D']
         fl = sorted({d for d in D.values()})
-        if det.get('const_class', 'normal') != 'normal' and clause == 'value_changed_by_reexpression':
+        nviol += 1
+        if det.get('reference_row'):
+            key = f'{ev["k"]}: {clause} in the all-SI all-double run of a row'
+        elif det.get('const_class', 'normal') != 'normal' and clause == 'value_changed_by_reexpression':
             key = f'{ev["k"]}: {clause} for float32 energy when {det["const_class"]}'
         elif clause == 'output_dtype':
             data = ', '.join(f'{a}={D[a]}' for a in det['data_operands']) or 'none'
             key = f'{ev["k"]}[{ev["part"]}]: {clause} {ev["dt"]} (data operands: {data})'
         else:
             key = f'{ev["k"]}[{ev["part"]}]: {clause} (operand dtypes {"/".join(fl)})'
+        found.append((key, ev, det))
+    # a signature seen with all-1-d operands is reported as such; one that only shows in other shapes says so
+    plain = {key for key, ev, _ in found if ev['shape'] == '1d'}
+    only = {}
+    for key, ev, _ in found:
+        if key not in plain:
+            only.setdefault(key, set()).add(ev['shape'])
+    for key, ev, det in found:
+        if key in only:
+            key += f' [only in shape {"/".join(sorted(only[key]))}]'
         ctx.violation(key, {'event': ev, 'context': det})
-
+    # vacuity last and only on a tree without violations (a broken implementation must end as a violation)
+    if nviol == 0:
+        if stats['ok'] < 100:
+            raise MachineryError(f'vacuous run: {stats}')
+        for sh in SHAPES:
+            if not shapes_used.get(sh):
+                raise MachineryError(f'vacuous run: no row replayed in shape {sh}')
 
 META = {
     'design_ref': 'DESIGN.md §5 C07',
